@@ -4,6 +4,7 @@ import SpecVerif.Proofs.Lemmas.Toeplitz
 import SpecVerif.Proofs.Lemmas.SchurCohn
 import Mathlib.Algebra.Star.Rat
 import SpecVerif.Proofs.Lemmas.CRatField
+import Mathlib.LinearAlgebra.Matrix.ConjTranspose
 /-
   C10 — the Levinson recursion solves the Hermitian Toeplitz normal equations.
 
@@ -506,5 +507,34 @@ example : @levRun CRat CRat.instAdd CRat.instSub CRat.instMul CRat.instDiv CRat.
     CRat.instOfNatOfNatNat CRat.instOfNatOfNatNat_1 CRat.instConj = levRun := rfl
 
 end CRatInstantiation
+
+/-! ## `CHOLESKY`: the glue around the LAPACK kernels
+
+`CHOLESKY(A, B)` is three library calls: a factorisation `A = L·Lᴴ` (`cholesky`), `L·y = B` and `Lᴴ·x = y` (two triangular solves,
+or `cho_solve`).  The kernels are parameters of the model (their contracts are the three hypotheses); what the function adds is the
+ORDER in which they are chained and WHICH factor is conjugate-transposed — and that composition solves the system, for any number of
+right-hand sides, over any field with involution. -/
+
+section Cholesky
+open Matrix
+
+theorem cholesky_glue {n m : Type} [Fintype n] [Fintype m] {F : Type} [Field F] [StarRing F]
+    (A L : Matrix n n F) (B X Y : Matrix n m F)
+    (hfac : L * Lᴴ = A) (hfwd : L * Y = B) (hbwd : Lᴴ * X = Y) : A * X = B := by
+  rw [← hfac, Matrix.mul_assoc, hbwd, hfwd]
+
+/-- chaining the two solves with the factors the other way round solves the system of `Lᴴ·L`, not of `A = L·Lᴴ` -/
+theorem cholesky_glue_wrong_order {n m : Type} [Fintype n] [Fintype m] {F : Type} [Field F] [StarRing F]
+    (L : Matrix n n F) (B X Y : Matrix n m F) (hfwd : Lᴴ * Y = B) (hbwd : L * X = Y) : (Lᴴ * L) * X = B := by
+  rw [Matrix.mul_assoc, hbwd, hfwd]
+
+/-- the contracts are satisfiable: `A = [[4, 2], [2, 2]]`, `L = [[2, 0], [1, 1]]`, `B = [2, 0]ᵀ`, `y = [1, -1]ᵀ`, `x = [1, -1]ᵀ` -/
+example : (!![2, 0; 1, 1] : Matrix (Fin 2) (Fin 2) ℚ) * (!![2, 0; 1, 1] : Matrix (Fin 2) (Fin 2) ℚ)ᴴ = !![4, 2; 2, 2] ∧
+    (!![2, 0; 1, 1] : Matrix (Fin 2) (Fin 2) ℚ) * (!![1; -1] : Matrix (Fin 2) (Fin 1) ℚ) = !![2; 0] ∧
+    (!![2, 0; 1, 1] : Matrix (Fin 2) (Fin 2) ℚ)ᴴ * (!![1; -1] : Matrix (Fin 2) (Fin 1) ℚ) = !![1; -1] := by
+  refine ⟨?_, ?_, ?_⟩ <;> ext i j <;> fin_cases i <;> fin_cases j <;>
+    simp [Matrix.mul_apply, Fin.sum_univ_two] <;> norm_num
+
+end Cholesky
 
 end SpecVerif.C10
